@@ -86,6 +86,12 @@ func (c *Config) Merge(from interface{}, options ...Option) error {
 		// settings report the source of the first value merged into it
 		c.metadata = opts.meta
 	}
+	if cfgRoot(other) == cfgRoot(c) {
+		// a Config passed directly is read in place. If it is c itself, a part
+		// of c, or a configuration c is a part of, merging would modify the
+		// source while reading it: merge a snapshot.
+		other = cfgSub{other}.cpy(context{}).(cfgSub).c
+	}
 	return mergeInto(opts, c, other)
 }
 
